@@ -231,7 +231,7 @@ def m_or_else(it, p, callee, args):
     return out
 
 
-INLINE = [r"^OrphanageTracker::\w+$", r"^ResponseHandlerMap::(lookup|orphan|allocate)$"]
+INLINE = [r"(^|::)OrphanageTracker::\w+$", r"(^|::)ResponseHandlerMap::(lookup|orphan|allocate)$"]
 
 
 # ------------------------------------------------------------------------------------------------ invariant
